@@ -236,6 +236,10 @@ class Check:
         os.makedirs(os.path.join(VERIF, 'replays'), exist_ok=True)
         os.makedirs(os.path.join(VERIF, 'evidence'), exist_ok=True)
 
+        import glob
+        for old in glob.glob(os.path.join(VERIF, 'replays', f'{self.pid}-{self.tier}-seed{self.seed}-*.json')):
+            os.unlink(old)
+
         def write_replay(kind, body):
             path = os.path.join('replays', f'{self.pid}-{self.tier}-seed{self.seed}-{kind}.json')
             json.dump(dict(property=self.pid, seed=self.seed, tier=self.tier, kind=kind, **body),
